@@ -16,6 +16,7 @@ import (
 	v1 "k8s.io/api/core/v1"
 	"k8s.io/apimachinery/pkg/api/resource"
 	metav1 "k8s.io/apimachinery/pkg/apis/meta/v1"
+	"k8s.io/apimachinery/pkg/types"
 
 	"verifharness/ref"
 	"verifharness/sim"
@@ -540,6 +541,22 @@ func (w *World) Apply(a Action) (rec *ScanRecord, ok bool) {
 			}
 		}
 		w.Pods = out
+	case "replacePod": // Names[0] is deleted and re-created with the same name and the shape Pods[0]
+		if len(a.Names) == 1 && len(a.Pods) == 1 {
+			for i, p := range w.Pods {
+				if p.Name == a.Names[0] {
+					spec := a.Pods[0]
+					spec.Node = p.Spec.NodeName
+					if spec.Node != "" && w.K.Nodes[spec.Node] == nil {
+						spec.Node = ""
+					}
+					np := w.NewPod(spec)
+					np.Name = p.Name
+					np.UID = types.UID(fmt.Sprintf("uid-%s-%d", p.Name, len(w.Log)))
+					w.Pods[i] = np
+				}
+			}
+		}
 	case "clearNode": // all pods on the node finish
 		w.dropPodsOn(a.Node)
 	case "schedule": // bind pending pods of the group to untainted, uncordoned nodes (no capacity model needed)
